@@ -44,7 +44,21 @@ func c16Run(p c16Prog) (v *drv.Violation, shared bool, failed bool) {
 	if err != nil {
 		return drv.Violf("open: %v", err), false, false
 	}
-	defer db.Close()
+	hung := false
+	defer func() {
+		if hung { // a leaked write lock would make Close block forever
+			return
+		}
+		closed := make(chan struct{})
+		go func() { db.Close(); close(closed) }()
+		select {
+		case <-closed:
+		case <-time.After(drv.HangDeadline):
+			if v == nil {
+				v = drv.Violf("Close did not return within %v after all Batch callers had returned (a write transaction was leaked)", drv.HangDeadline)
+			}
+		}
+	}()
 	db.MaxBatchSize = p.BatchSize
 	db.MaxBatchDelay = time.Duration(p.DelayMs) * time.Millisecond
 	if err := db.Update(func(tx *bolt.Tx) error { _, err := tx.CreateBucket([]byte("c")); return err }); err != nil {
@@ -124,6 +138,7 @@ func c16Run(p c16Prog) (v *drv.Violation, shared bool, failed bool) {
 	select {
 	case <-done:
 	case <-time.After(drv.HangDeadline):
+		hung = true
 		return drv.Violf("Batch callers did not all return within %v (lost wake-up or leaked lock)", drv.HangDeadline), false, false
 	}
 	// final counters
